@@ -28,6 +28,7 @@ class GateSock:
         self._held = False
         self._broken_writes = False
         self._read_exc = None
+        self.lazy_close = False  # True: like an OS descriptor, a reader already blocked learns of close() at its next timeout
         self.sent = bytearray()  # everything this side wrote
 
     @staticmethod
@@ -59,8 +60,15 @@ class GateSock:
     def recv(self, n):
         with self._cv:
             end = None if self._timeout is None else time.monotonic() + self._timeout
+            closed_on_entry = self._closed
             while True:
                 if self._closed:
+                    if self.lazy_close and not closed_on_entry and end is not None:
+                        left = end - time.monotonic()
+                        if left > 0:  # close() by another thread does not wake a reader blocked in the OS
+                            self._cv.wait(left)
+                            continue
+                        raise OSError(9, "Bad file descriptor")
                     return b""
                 if self._read_exc is not None:
                     raise self._read_exc
@@ -204,12 +212,18 @@ class BasicServer:
 
 
 def make_pair(auth=True, client_cls=None, server_iface=None, client_kwargs=None, server_kwargs=None,
-              start=True):
-    """Real client/server Transports over a GateSock pair.  Returns (tc, ts, sc, ss, server_iface)."""
+              start=True, sock_timeout=None):
+    """Real client/server Transports over a GateSock pair.  Returns (tc, ts, sc, ss, server_iface).
+    ``sock_timeout``: the application set this timeout on both sockets before handing them over (as
+    socket.create_connection(addr, timeout=...) does), and the sockets behave like OS descriptors on close()."""
     from paramiko import Transport
 
     quiet_logging()
     sc, ss = GateSock.pair()
+    if sock_timeout is not None:
+        for s_ in (sc, ss):
+            s_.settimeout(sock_timeout)
+            s_.lazy_close = True
     tc = (client_cls or Transport)(sc, **(client_kwargs or {}))
     ts = Transport(ss, **(server_kwargs or {}))
     ts.add_server_key(hostkey())
